@@ -75,6 +75,13 @@ def serviceOps (stats : Bool) (ovs : List (Bytes × Bool)) : List Op :=
   ovs.map (fun o => if top = some .tunnel || (!optInNeedsTunnelEndpoint && (serviceWrappers stats (ovs.any (·.2))).contains .tunnel)
                     then Op.overlay o.1 o.2 else Op.overlayForeign o.1 o.2)
 
+/-- `CommunicationManager.load(pseudonym)`: a fresh TunnelEndpoint (`produce_anonymized_endpoint`), the identity overlay
+    and the attestation overlay constructed on it with the (translated) `anonymize` arguments, then
+    `set_tunnel_community(tunnel_community)` — with `None` when no HiddenTunnelCommunity is loaded -/
+def pseudonymOps (hasTunnels : Bool) (idCid atCid : Bytes) : List Op :=
+  [.overlay idCid (pseudonymAnonymize hasTunnels).1, .overlay atCid (pseudonymAnonymize hasTunnels).2,
+   .setTunnelCommunity hasTunnels defaultTcHops]
+
 /-- the state after a history -/
 def runState (s : State) : List Op → State
   | [] => s
